@@ -110,6 +110,26 @@ def run(chk, ctx):
         chk.files.add(rel_u)
         chk.functions.add(f"{rel_u[:-3]}.{c_u.name}.uses_storage_type")
         base = f"{rel_u[:-3]}.{c_u.name}.uses_storage_type@{cname}"
+        # every attribute the query reads exists on every instance: it is stored by the constructor chain (or is a class
+        # attribute / property / method) - otherwise the query raises AttributeError
+        reads = {x.attr for x in ast.walk(f_u) if isinstance(x, ast.Attribute) and isinstance(x.value, ast.Name) and x.value.id == "self"
+                 and isinstance(x.ctx, ast.Load)}
+        have = set()
+        for _, cc in repo.mro(cname):
+            for b_ in cc.body:
+                if isinstance(b_, ast.FunctionDef):
+                    have.add(b_.name)
+                    if b_.name == "__init__":
+                        have |= {t.attr for x in ast.walk(b_) if isinstance(x, (ast.Assign, ast.AugAssign, ast.AnnAssign))
+                                 for t in (x.targets if isinstance(x, ast.Assign) else [x.target])
+                                 for t in ast.walk(t) if isinstance(t, ast.Attribute) and isinstance(t.value, ast.Name) and t.value.id == "self"}
+                elif isinstance(b_, ast.Assign):
+                    have |= {t.id for t in b_.targets if isinstance(t, ast.Name)}
+        missing_attrs = sorted(reads - have)
+        chk.decide("C11.TOTAL", base + "#attributes", True if not missing_attrs else False,
+                   f"uses_storage_type reads {sorted(reads)}" + ("; all are stored by the constructor chain" if not missing_attrs else
+                   f"; {missing_attrs} is never stored by the constructors of {cname}: the query raises AttributeError"),
+                   rel=rel_u, node=f_u, nontrivial=False)
         # split entries on storage-valued attributes with finite domains
         split = []
         for e in entries:
